@@ -9,6 +9,7 @@ META = {
     "level_text": "Machine-checked proofs (Coq 8.16, axiom-free) of the substitution laws for all terms (types, lifetimes, consts, where clauses, goals, clauses; any binder depth) of the Gallina model of chalk-ir's folders; the model is tied to /repo on every run by running shifted_in_from / shifted_out_to / Subst::apply / Binders::substitute / identity_substitution / a do-nothing folder on generated terms and comparing each result with the model evaluated in Coq; in addition every law instance is evaluated directly on the implementation's own outputs.",
     "level_note": "Trusted: Coq kernel; hand-written model coq/Ir/Fold.v (tied by correspondence on generated terms of bounded depth only); harness conversion sexp<->chalk_ir. The code's assumption 'const types have no free variables' is part of the generator (const types are closed); VariableKind::Const types are usize.",
     "design_ref": "DESIGN.md section 4 C25",
+    "bins": ["irbin"],
     "assumptions": ["const types are closed terms (chalk's Shifter/Subst skip them by design)",
                     "panic sites are compared as panic/no-panic only (evaluation order of children is not part of the property)"],
 }
